@@ -362,3 +362,164 @@ theorem touches_minifyOps (cfg : Cfg) (w : Writes) (t : Task) (fs : Fs) :
     · exact touches_tailOps _ _ _ _ _ h _ hq
 
 end Verif.Proofs.CliFs
+
+namespace Verif.Proofs.CliFs
+open Verif Verif.Model.CliFs
+
+/-! ## view-level semantics and locality (for interleavings of several tasks) -/
+
+/-- what one op does to the *view* `path ↦ content` -/
+def stepGet (g : Path → Option Bytes) (op : Op) (q : Path) : Option Bytes :=
+  match op with
+  | .rename a b =>
+    match g a with
+    | none => g q
+    | some v => if q = b then some v else if q = a then none else g q
+  | .openTrunc p => if q = p then some [] else g q
+  | .write p c =>
+    match g p with
+    | none => g q
+    | some v => if q = p then some (v ++ c) else g q
+  | .remove p => if q = p then none else g q
+  | _ => g q
+
+theorem get_step (fs : Fs) (op : Op) (q : Path) : (step fs op).get q = stepGet fs.get op q := by
+  cases op with
+  | rename a b =>
+    simp only [stepGet]
+    cases hg : fs.get a with
+    | none => simp [step, hg]
+    | some v =>
+      simp only
+      by_cases hb : q = b
+      · subst hb; rw [if_pos rfl, get_rename_dst, hg]; rfl
+      · rw [if_neg hb]
+        by_cases ha : q = a
+        · subst ha; rw [if_pos rfl]
+          exact get_rename_src _ _ _ hb (by simp [hg])
+        · rw [if_neg ha]
+          exact get_step_untouched _ _ _ (by simp [touches, ha, hb])
+  | openTrunc p =>
+    simp only [stepGet]
+    by_cases h : q = p
+    · subst h; rw [if_pos rfl]; exact get_openTrunc _ _
+    · rw [if_neg h]; exact get_step_untouched _ _ _ (by simp [touches, h])
+  | write p c =>
+    simp only [stepGet]
+    cases hg : fs.get p with
+    | none => simp [step, hg]
+    | some v =>
+      simp only
+      by_cases h : q = p
+      · subst h; rw [if_pos rfl]; exact get_write _ _ _ _ hg
+      · rw [if_neg h]; exact get_step_untouched _ _ _ (by simp [touches, h])
+  | remove p =>
+    simp only [stepGet]
+    by_cases h : q = p
+    · subst h; rw [if_pos rfl]; exact get_remove _ _
+    · rw [if_neg h]; exact get_step_untouched _ _ _ (by simp [touches, h])
+  | close p => exact get_step_untouched _ _ _ (by simp [touches])
+  | openRead p => rfl
+  | mkdir d => rfl
+  | chmod p => rfl
+  | chown p => rfl
+  | chtimes p => rfl
+
+/-- two states show the same content on the paths of `S` -/
+def AgreeOn (S : List Path) (s1 s2 : Fs) : Prop := ∀ q ∈ S, s1.get q = s2.get q
+
+theorem AgreeOn.refl (S : List Path) (s : Fs) : AgreeOn S s s := fun _ _ => rfl
+
+/-- **locality**: an op whose touched paths lie in `S` maps states that agree on `S` to states that agree on `S` -/
+theorem step_agree (S : List Path) (s1 s2 : Fs) (op : Op) (hs : ∀ q ∈ touches op, q ∈ S)
+    (h : AgreeOn S s1 s2) : AgreeOn S (step s1 op) (step s2 op) := by
+  intro q hq
+  rw [get_step, get_step]
+  cases op with
+  | rename a b =>
+    have ha := h a (hs a (by simp [touches]))
+    simp only [stepGet, ha, h q hq]
+  | openTrunc p => simp only [stepGet, h q hq]
+  | write p c =>
+    have hp := h p (hs p (by simp [touches]))
+    simp only [stepGet, hp, h q hq]
+  | remove p => simp only [stepGet, h q hq]
+  | close p => simp only [stepGet, h q hq]
+  | openRead p => simp only [stepGet, h q hq]
+  | mkdir d => simp only [stepGet, h q hq]
+  | chmod p => simp only [stepGet, h q hq]
+  | chown p => simp only [stepGet, h q hq]
+  | chtimes p => simp only [stepGet, h q hq]
+
+theorem run_agree (S : List Path) (l : List Op) (s1 s2 : Fs)
+    (hs : ∀ op ∈ l, ∀ q ∈ touches op, q ∈ S) (h : AgreeOn S s1 s2) :
+    AgreeOn S (run l s1) (run l s2) := by
+  induction l generalizing s1 s2 with
+  | nil => exact h
+  | cons op r ih =>
+    rw [run_cons, run_cons]
+    exact ih _ _ (fun o ho => hs o (List.mem_cons_of_mem _ ho))
+      (step_agree S s1 s2 op (hs op (List.mem_cons_self ..)) h)
+
+/-- an op that touches nothing in `S` is invisible on `S` -/
+theorem step_invisible (S : List Path) (s : Fs) (op : Op) (hs : ∀ q ∈ touches op, q ∉ S) :
+    AgreeOn S (step s op) s := by
+  intro q hq
+  exact get_step_untouched _ _ _ (fun hm => hs q hm hq)
+
+/-! ## interleavings -/
+
+/-- **projection**: on a set `S` of paths that only task `i` touches, an interleaved run looks like a
+    prefix of task `i` run alone. -/
+theorem interleave_project (S : List Path) (i : Nat) (sch : List Nat) :
+    ∀ (rem : List (List Op)) (s1 s2 : Fs), AgreeOn S s1 s2 →
+      (∀ op ∈ rem[i]?.getD [], ∀ q ∈ touches op, q ∈ S) →
+      (∀ j l, j ≠ i → rem[j]? = some l → ∀ op ∈ l, ∀ q ∈ touches op, q ∉ S) →
+      ∃ k, AgreeOn S (run (interleave rem sch) s1) (run ((rem[i]?.getD []).take k) s2) := by
+  induction sch with
+  | nil => intro rem s1 s2 h _ _; exact ⟨0, by simpa [interleave, run] using h⟩
+  | cons j rest ih =>
+    intro rem s1 s2 h hi ho
+    simp only [interleave]
+    cases hj : rem[j]? with
+    | none => exact ih rem s1 s2 h hi ho
+    | some l =>
+      cases l with
+      | nil => exact ih rem s1 s2 h hi ho
+      | cons op tl =>
+        simp only
+        have hjlt : j < rem.length := by
+          rcases List.getElem?_eq_some_iff.mp hj with ⟨hlt, _⟩; exact hlt
+        by_cases hji : j = i
+        · subst hji
+          have hi' : ∀ o ∈ op :: tl, ∀ q ∈ touches o, q ∈ S := by simpa [hj] using hi
+          have hset : (rem.set j tl)[j]? = some tl := by simp [hjlt]
+          obtain ⟨k, hk⟩ := ih (rem.set j tl) (step s1 op) (step s2 op)
+            (step_agree S s1 s2 op (hi' op (List.mem_cons_self ..)) h)
+            (by rw [hset]; exact fun o ho' => hi' o (List.mem_cons_of_mem _ ho'))
+            (by
+              intro j' l' hne hl'
+              rw [List.getElem?_set_ne (Ne.symm hne)] at hl'
+              exact ho j' l' hne hl')
+          refine ⟨k + 1, ?_⟩
+          rw [hset] at hk
+          simpa [hj, List.take_succ_cons, run_cons] using hk
+        · have hop : ∀ q ∈ touches op, q ∉ S := ho j _ hji hj op (List.mem_cons_self ..)
+          have hseti : (rem.set j tl)[i]? = rem[i]? := List.getElem?_set_ne hji
+          obtain ⟨k, hk⟩ := ih (rem.set j tl) (step s1 op) s2
+            (fun q hq => (step_invisible S s1 op hop q hq).trans (h q hq))
+            (by rw [hseti]; exact hi)
+            (by
+              intro j' l' hne hl'
+              by_cases hjj : j = j'
+              · subst hjj
+                have : l' = tl := by simpa [hjlt] using hl'.symm
+                subst this
+                exact fun o ho' => ho j _ hne hj o (List.mem_cons_of_mem _ ho')
+              · rw [List.getElem?_set_ne hjj] at hl'
+                exact ho j' l' hne hl')
+          refine ⟨k, ?_⟩
+          rw [hseti] at hk
+          simpa [run_cons] using hk
+
+end Verif.Proofs.CliFs
